@@ -68,6 +68,12 @@ def lib():
             enumerations = dict(vendorGain=512, vendorTrim=4194303)
         P.expand_enumerations(VendorPropertyIdentifier)
 
+        # a two-level enumeration that relies on the lazy table expansion (no explicit call), its parent having been used first
+        basetypes.EngineeringUnits("degreesCelsius")
+
+        class VendorUnits(basetypes.EngineeringUnits):
+            enumerations = dict(vendorFurlongsPerFortnight=60000, vendorSmoots=300)
+
         class VendorFlags(P.BitString):
             bitNames = dict(fan=0, pump=1, valve=5, alarm=12)
             bitLen = 13
@@ -253,6 +259,19 @@ def check_prim(cname, v, ctx):
         return fails, octets
     if not same(base, got, refv):
         fails.append(("prim:%s:%s:value-changed" % (base, mode), "%s(%r) ctx=%r -> %s -> %r" % (short, _s(v), ctx, octets[:24].hex(), _s(got))))
+    # 3a. a bit string filled bit by bit, from whatever truthy values an application has at hand (a masked flag, a count)
+    if base == "BitString" and not fails and isinstance(refv, (list, tuple)) and len(refv) <= 64:
+        try:
+            o4 = klass([0] * len(refv)) if len(refv) else klass([])
+            for i_, b_ in enumerate(refv):
+                if b_:
+                    o4[i_] = (True, 2, 1, 0x40, 255)[i_ % 5]
+            oct4 = _encode_obj(L, o4, ctx)
+            if oct4 != octets:
+                fails.append(("prim:BitString:%s:bits-assigned-by-index" % mode, "%s %r filled bit by bit with truthy values encodes to %s, the canonical form is %s" % (short, _s(refv), oct4[:24].hex(), octets[:24].hex())))
+        except REFUSALS + (IndexError,) as err:
+            if len(refv) == len(o4.value if 'o4' in dir() else refv):
+                fails.append(("prim:BitString:%s:bits-assigned-by-index:raised:%s" % (mode, type(err).__name__), "%s %r: %r" % (short, _s(refv), err)))
     # 3b. a decoded value handed on through the copy constructor (what every constructed type does with its elements) is the same value
     if not fails:
         fails += copy_check(L, klass, base, kind, short, mode, ctx, obj2, octets, v)
